@@ -907,7 +907,7 @@ func checkVoteInfoCarryOver(c *Ctx, prop string, setP *ssa.Function) {
 		for _, in := range b.Instrs {
 			// the stored entry itself goes into the new list
 			if st, ok := in.(*ssa.Store); ok {
-				if isLookup(T(st.Val), 0) {
+				if isLookup(ff.Term(st.Val), 0) {
 					if _, isIdx := st.Addr.(*ssa.IndexAddr); isIdx {
 						nKept++
 					}
@@ -932,7 +932,7 @@ func checkVoteInfoCarryOver(c *Ctx, prop string, setP *ssa.Function) {
 				name := fieldNameOf(stt.Field(fa.Field))
 				for _, rr := range *fa.Referrers() {
 					if st, ok := rr.(*ssa.Store); ok && st.Addr == fa {
-						fields[name] = T(st.Val)
+						fields[name] = ff.Term(st.Val)
 					}
 				}
 			}
@@ -949,11 +949,8 @@ func checkVoteInfoCarryOver(c *Ctx, prop string, setP *ssa.Function) {
 				continue
 			}
 			nFresh++
-			gf := ff
-			if al.Parent() != setP {
-				gf = factsOf(al.Parent())
-			}
-			dom := gf.EveryPathHas(al.Block(), lookupFailed)
+			// (asked of the root's facts: for a block inside a helper they include the facts at its call sites)
+			dom := ff.EveryPathHas(al.Block(), lookupFailed)
 			d := newLin()
 			d.add(linOf(mh), 1)
 			d.add(linOf(lp), -1)
